@@ -146,6 +146,56 @@ def count_is_used(fn, result_local):
     return False
 
 
+def r8_no_error_is_parked_unread(ck, rule="C18-R8"):
+    """An error of an output operation is returned - or, when it is put aside in the state of the run to be reported later (a field of
+    a struct that holds an `Error`), then every driver that can reach the code putting it aside also reaches code that takes it out
+    again.  A driver that never looks drops the state with the error inside and reports success."""
+    prog, cg = ck.prog, ck.cg
+    ERR = ("failure::error::Error", "std::io::Error", "std::io::error::Error")
+    fields = []
+    for aid, a in sorted(prog.adts.items()):
+        if not aid.startswith("rapidquilt::") or a.get("kind") != "Struct":
+            continue
+        for v in a.get("variants", []):
+            for f in v.get("fields", []):
+                if any(x in str(f.get("ty")) for x in ERR):
+                    fields.append((aid, f["name"]))
+    drivers = [d for d in (ck.anchor(A["seq"]), ck.anchor(A["par"])) if d is not None]
+    ck.info(rule, "fields of the run's state that can hold an error", "%s" % (fields or "none: every error is returned"))
+    for aid, name in fields:
+        mention, readers = set(), set()
+        for fn in prog.fns.values():
+            takes = set()
+            for bb, t in fn.calls():
+                rp = callee_of(t).get("rpath") or ""
+                if rp.endswith(("Option::<T>::take", "mem::take", "mem::replace", "Option::<T>::is_some", "Option::<T>::as_ref", "Vec::<T, A>::drain",
+                                "Vec::<T, A>::pop", "IntoIterator>::into_iter", "Vec::<T, A>::is_empty")) and t["args"]:
+                    takes |= set(df.operand_trace(fn, t["args"][0]))
+            for bb, idx, st in fn.stmts():
+                if st["k"] != "assign":
+                    continue
+                def has(pl):
+                    return isinstance(pl, dict) and any(isinstance(p_, dict) and p_.get("adt") == aid and p_.get("name") == name for p_ in pl.get("p", []))
+                rv = st["rv"]
+                if has(st["lhs"]):
+                    mention.add(fn.id)
+                src = rv.get("pl") if rv["k"] in ("ref", "rawptr", "discr") else (rv.get("op", {}).get("pl") if rv["k"] == "use" else None)
+                if has(src):
+                    mention.add(fn.id)
+                    if rv["k"] in ("use", "discr") or (rv["k"] == "ref" and st["lhs"]["l"] in takes and "p" not in st["lhs"]):
+                        readers.add(fn.id)
+        for d in drivers:
+            cl = cg.closure([d.id]) | {c.id for f_ in cg.closure([d.id]) if f_ in prog.fns for c in prog.closures_of(prog.fns[f_])}
+            touches = sorted((mention - readers) & cl)
+            if not touches:
+                continue
+            ck.require(bool(readers & cl), rule, "%s.%s is looked at by %s" % (aid.split("::")[-1], name, d.id.split("::")[-2]),
+                       "%s can put an error aside in %s.%s (through %s) but nothing it reaches ever takes it out again: the failure of that "
+                       "output operation is dropped with the state and the run reports success" % (d.id, aid.split("::")[-1], name,
+                                                                                                [x.split("::")[-1] for x in touches][:3]),
+                       d.where(), ok_detail="taken out again by %s" % sorted(x.split("::")[-1] for x in readers & cl)[:3])
+
+
 def r6_only_notfound_tolerated(ck, rule="C18-R6"):
     """A failing output operation may be passed over in exactly one case: removing something that is not there (NotFound).  Any other
     error kind that a function singles out after a failed remove_file / remove_dir / create_dir* / File::create is a failure that is
@@ -408,6 +458,7 @@ def run(ck):
     c05.r5(ck_alias(ck, "C18-R5"), main, cmd_push, seq, par)
     r5(ck)
     r7_error_paths_cannot_crash(ck)
+    r8_no_error_is_parked_unread(ck)
 
 
 def r7_error_paths_cannot_crash(ck, rule="C18-R7"):
